@@ -380,6 +380,9 @@ def gen_text():
     L.append(f'Definition gen13_tet_redges : list (list nat) := {nats(R.RefTet.edges)}.')
     L.append(f'Definition gen13_tet_rfacets : list (list nat) := {nats(R.RefTet.facets)}.')
     L.append('(* MeshLine1._adaptive starts with marked = np.unique(marked)? *)\nDefinition gen_line_unique : bool := %s.' % ('true' if line['unique'] else 'false'))
+    for c, nm in (('MeshTri2', 'tri2'), ('MeshTet2', 'tet2')):
+        L.append(f'(* {c}._adaptive *)\nDefinition gen_{nm}_adaptive_via : via2 := '
+                 + ('ViaCarry' if sec[c] == 'carry' else 'ViaFromMesh') + '.')
     if line['subdomains'] == 'own':
         L.append('''(* MeshLine1._adaptive: new_t[0, nonmarked] = arange(len(nonmarked));
    new_t[:, marked] = arange(2 len(marked)).reshape(2, -1) + len(nonmarked) *)
